@@ -51,6 +51,8 @@ func main() {
 		cmdReplay(os.Args[2:])
 	case "sweep":
 		cmdSweep(os.Args[2:])
+	case "mapranges":
+		cmdMapRanges(os.Args[2:])
 	default:
 		fmt.Fprintln(os.Stderr, "unknown command", os.Args[1])
 		os.Exit(2)
@@ -216,4 +218,39 @@ func (e *Engine) sweepKeys(prefix string) []string {
 	}
 	sort.Strings(keys)
 	return keys
+}
+
+// cmdMapRanges lists every range-over-map site of the loaded packages (development aid for C03).
+func cmdMapRanges(args []string) {
+	fs := flag.NewFlagSet("mapranges", flag.ExitOnError)
+	repo := fs.String("repo", "/repo", "repository root")
+	pkgs := fs.String("pkgs", "./...", "package patterns")
+	fs.Parse(args)
+	eng, err := LoadEngine(*repo, strings.Split(*pkgs, ","), nil)
+	if err != nil {
+		fmt.Fprintln(os.Stderr, "load:", err)
+		os.Exit(2)
+	}
+	var all []*Oblig
+	var results []*FuncResult
+	for _, s := range eng.mapRangeSites() {
+		res := eng.commuteResult(s)
+		results = append(results, res)
+		all = append(all, res.Obligs...)
+	}
+	Discharge(all, SolveOpts{TimeoutS: 10, Dir: "/tmp/govc-commute", KeepFiles: true})
+	sites := eng.mapRangeSites()
+	for i, res := range results {
+		status := "ok"
+		if res.Unsupported != "" {
+			status = "UNSUPPORTED " + res.Unsupported
+		}
+		for _, o := range res.Obligs {
+			if o.Status != "proved" {
+				status = "FAILS " + strings.TrimPrefix(o.Name, "commute:"+sites[i].Name+":") + " (" + o.Status + ")"
+				break
+			}
+		}
+		fmt.Printf("%-70s %-45s %s\n", sites[i].Name, sites[i].Pos, status)
+	}
 }
